@@ -1,9 +1,10 @@
 import DepsDev.Proofs.C03L3Incl
 
 /-!
-# C03 layer L3 for npm, operator `none`: interval membership of a prerelease candidate
+# C03 layer L3 for npm, operator `none`: interval membership of a prerelease candidate (operands without tag)
 
-See `C03L3Incl` for the statement (`L1PNpm`) and the proof script.
+See `C03L3Incl` for the statements and the proof script; `C03L3InclNoneP` has the tagged operands
+and the assembled `L1PNpm .none`.
 -/
 namespace DepsDev.Proofs.C03
 
@@ -13,12 +14,6 @@ set_option linter.unusedSimpArgs false
 set_option linter.unusedVariables false
 
 theorem l1p_full_none : L1PFull .none := by l1p_full
-theorem l1p_pre_lt_none : L1PPreO .none .lt := by l1p_pre
-theorem l1p_pre_eq_none : L1PPreO .none .eq := by l1p_pre
-theorem l1p_pre_gt_none : L1PPreO .none .gt := by l1p_pre
 theorem l1p_part_none : L1PPart .none := by l1p_part
-
-theorem l1p_npm_none : L1PNpm .none :=
-  l1p_assemble _ l1p_full_none (l1p_pre_assemble _ l1p_pre_lt_none l1p_pre_eq_none l1p_pre_gt_none) l1p_part_none
 
 end DepsDev.Proofs.C03
